@@ -4,7 +4,7 @@
    earlier history.  The samplers of /repo are tied to this generic machine by the correspondence harness
    (bit-for-bit differential runs + the trace instance) and by the footprint facts regenerated from the
    source on every run (coq/gen/Gen_C14.v), which instantiate C14_resume_footprint / C14_reinitialize. *)
-From CV Require Import Base.Tac Base.Cmp Model.C14_Chain Proofs.C14_Chain.
+From CV Require Import Base.Tac Base.Cmp Model.C19_Stats Model.C14_Chain Model.C14_Burn Proofs.C14_Chain Proofs.C14_Burn.
 From Coq Require String.
 Import String.StringSyntax.
 
@@ -67,6 +67,16 @@ Proof.
   destruct (grows_entries St Pt Acc s s' _ (run_ops_grows Cfg St Rnd Pt Acc step tune point c ops s)) as (_ & _ & H3 & H4).
   split; assumption.
 Qed.
+
+(* the stateful interface records the warm-up too and discards it afterwards: warmup(Nb), sample(N) on a sampler with
+   empty history, then get_samples().burnthin(Nb) (Samples.burnthin, the model of property C19) returns exactly the N
+   states produced by the sampling call, in order -- the last N states of the chain *)
+Theorem C14_exp_burnin : forall (c : Cfg) (ti : nat) (s : sampler) (rsw rs : list Rnd),
+  smp s = [] -> rs <> [] ->
+  let w := warmup Cfg St Rnd Pt Acc step tune point c ti s rsw in
+  burnthin (length rsw) 1 (smp (sample c w rs)) = Some (map point (states c (st w) rs)) /\
+  length (map point (states c (st w) rs)) = length rs.
+Proof. intros c ti s rsw rs. exact (exp_burnin Cfg St Rnd Pt Acc step tune point c ti s rsw rs). Qed.
 
 (* checkpoint / resume.  get_state = proj, set_state = inject.  FP: a transition depends on the sampler only
    through the saved keys (configuration equal); current_point is a saved key.  Then a state saved at ANY point and
@@ -141,6 +151,7 @@ Print Assumptions C14_length.
 Print Assumptions C14_order.
 Print Assumptions C14_append_only.
 Print Assumptions C14_callback_once.
+Print Assumptions C14_exp_burnin.
 Print Assumptions C14_resume.
 Print Assumptions C14_checkpoint_any_position.
 Print Assumptions C14_burnin_slice.
